@@ -343,7 +343,7 @@ class FunctionCase:
                 # complex magnitude: |x| where x solves the law
                 return self._abs_complex(sub, consts, out)
             return f"documented to return a magnitude of the solution but returned {out}"
-        if self.allow in ("floor", "ceil") and holds(out):
+        if self.allow in ("floor", "ceil") and abs(out) > 1e6 and holds(out):
             return ""  # large counts: the rounding is below the relative tolerance
         if self.allow == "floor":
             n = out
@@ -617,6 +617,14 @@ def explore_function(fc: FunctionCase, bound: int) -> dict:
                 else:
                     spl[name] = val
             judge(sc, spl, ";".join(f"{a}:{b}:{c}" for a, b, c in combo))
+    # rounding functions: tuples that put the law's solution 1e-10 above / below the integers next
+    # to the default result (found by a root search in the scale of one argument)
+    if fc.allow in ("ceil", "floor") and fc.mapping:
+        for p_, lam, tag in integer_boundary_scales(fc, kw, r, scalable, base_scales):
+            sc = dict(base_scales)
+            sc[p_] = sc.get(p_, 1.0) * lam
+            judge(sc, {}, tag)
+            count("integer-boundary")
     # calling convention: the result must not depend on how the arguments are passed
     if len(drivable) >= 1:
         for style in ("reversed", "positional", "mixed"):
@@ -669,6 +677,64 @@ def explore_function(fc: FunctionCase, bound: int) -> dict:
         res["samples"].append({"function": fc.key, "default_result": short(base_struct, 60),
             "mapped_to_law": fc.mapping is not None, "deviations": len(devs)})
     return res
+
+
+def integer_boundary_scales(fc: FunctionCase, kw: dict, result: Any, scalable: list,
+    base_scales: dict) -> list[tuple[str, float, str]]:
+    out = []
+    try:
+        n0 = si_number(result)
+        n0 = int(mpmath.mpmathify(n0).real)
+        sub = {sym: si_number(kw[pn]) for pn, sym in fc.mapping.items()}
+        consts = {q: values.raw_to_si(q.scale_factor, _dv(q)) for q in fc.law.atoms(SymQuantity)}
+    except Exception:  # pylint: disable=broad-except
+        return out
+    if any(v is None for v in sub.values()) or abs(n0) > 1000:
+        return out
+
+    def resid(sym: Any, lam: Any, target: Any) -> Any:
+        vals = dict(sub)
+        vals[sym] = mpmath.mpmathify(vals[sym]) * lam
+        rep = {k: _sym(v) for k, v in {**vals, fc.out_sym: target, **consts}.items()}
+        return values.mpc(fc.law.lhs.xreplace(rep)) - values.mpc(fc.law.rhs.xreplace(rep))
+
+    old_dps = mpmath.mp.dps
+    mpmath.mp.dps = 40
+    try:
+        for p in scalable:
+            if p.kind not in ("quantity", "number") or p.name not in fc.mapping:
+                continue
+            sym = fc.mapping[p.name]
+            for m_ in (n0 - 1, n0, n0 + 1):
+                if m_ < 1:
+                    continue
+                for delta in ("1e-10", "-1e-10", "4e-10"):
+                    target = mpmath.mpf(m_) + mpmath.mpf(delta)
+                    try:
+                        lam = mpmath.findroot(lambda x: resid(sym, x, target).real, (mpmath.mpf(1),
+                            mpmath.mpf("1.01")), solver="secant", tol=1e-30, maxsteps=60)
+                    except Exception:  # pylint: disable=broad-except
+                        continue
+                    if lam.imag != 0 if isinstance(lam, mpmath.mpc) else False:
+                        continue
+                    lam = mpmath.mpf(lam.real if isinstance(lam, mpmath.mpc) else lam)
+                    if not mpmath.mpf("0.05") < lam < 20:
+                        continue
+                    # the scale is applied in double precision: keep it only if the solution is
+                    # still on the intended side of the integer, at least 1e-11 away from it
+                    lamf = float(lam)
+                    try:
+                        chk = mpmath.findroot(lambda x: resid(sym, mpmath.mpf(lamf), x).real, target,
+                            tol=1e-30, maxsteps=40)
+                    except Exception:  # pylint: disable=broad-except
+                        continue
+                    chk = mpmath.mpf(chk.real if isinstance(chk, mpmath.mpc) else chk)
+                    if abs(chk - target) > mpmath.mpf("5e-11"):
+                        continue
+                    out.append((p.name, lamf, f"integer-boundary:{p.name}:{m_}{'+' if delta[0] != '-' else ''}{delta}"))
+    finally:
+        mpmath.mp.dps = old_dps
+    return out
 
 
 def _ill_conditioned(fc: FunctionCase, scales: dict, base_struct: Any) -> bool:
